@@ -124,11 +124,73 @@ func runC06(run *mc.Run) int {
 	// the daemon uses); each line must again yield exactly its one event
 	piped := c06ThroughPipe(run, s, pids[0])
 	n += int64(piped)
+	// third pass: what a line yields does not depend on the line before it - every ordered pair of message
+	// forms (one representative line each), from the same sshd process and from two different ones
+	n += int64(c06Pairs(run, pids[0], pids[1]))
 	cov := mc.Coverage{Level: "exploration", Evaluations: int(n), Distinct: int(n) / (len(pids) + 1), Exhaustive: complete, Samples: sm.samples,
-		Rule:  "full cartesian product of the per-field value sets for each of the 22 sshd message forms (sshd's own format strings), each x every pid token, through the real ProcessSshdLogEntry, and once more (first pid token) as '<pid> <message>\\n' through a real FIFO into the real syslog ingester; expected event assembled from the generating fields. distinct_nontrivial = distinct generated lines (all begin with a dispatch keyword and reach a regular expression)",
+		Rule:  "full cartesian product of the per-field value sets for each of the 22 sshd message forms (sshd's own format strings), each x every pid token, through the real ProcessSshdLogEntry, and once more (first pid token) as '<pid> <message>\\n' through a real FIFO into the real syslog ingester, each line twice in a row, plus every ordered pair of the 22 forms (same pid / two pids) through the FIFO; expected event assembled from the generating fields. distinct_nontrivial = distinct generated lines (all begin with a dispatch keyword and reach a regular expression)",
 		Extra: map[string]any{"lines_per_form": sm.forms, "pid_tokens": pids}}
 	cov.Assumptions = []string{"field value sets as listed in go/psshd/gen.go (chosen to hit every greedy/lazy/optional/anchored construct)"}
 	return run.Finish(cov)
+}
+
+// c06Pairs writes every ordered pair of representative lines (one per message form) to the pipe, once with the
+// same pid and once with different pids, and judges both events like C06 judges a single line.
+func c06Pairs(run *mc.Run, pidA, pidB string) int {
+	dir := os.Getenv("VERIF_BUILD")
+	if dir == "" {
+		dir = os.TempDir()
+	}
+	dir = filepath.Join(dir, "c06-pair-fifos")
+	_ = os.MkdirAll(dir, 0o755)
+	var reps []Exp
+	seen := map[string]bool{}
+	forms(fieldSets(false), func(x Exp) {
+		if !seen[x.Form] {
+			seen[x.Form] = true
+			reps = append(reps, x)
+		}
+	})
+	type pair struct {
+		x, y   Exp
+		px, py string
+	}
+	jobs := make(chan pair, 64)
+	var wg sync.WaitGroup
+	var n int64
+	for wk := 0; wk < runtime.GOMAXPROCS(0); wk++ {
+		wg.Add(1)
+		go func() {
+			defer wg.Done()
+			for p := range jobs {
+				t0 := time.Now()
+				o := throughPipe(dir, []string{p.px + " " + p.x.Line + "\n", p.py + " " + p.y.Line + "\n"})
+				o.T0, o.T1 = t0, time.Now()
+				atomic.AddInt64(&n, 2)
+				msg := ""
+				if len(o.Events) != 2 || o.Panic != nil {
+					msg = fmt.Sprintf("%d events (panic %v), want one per line", len(o.Events), o.Panic)
+				} else if m := checkC06(p.x, p.px, obs{Events: o.Events[:1], T0: o.T0, T1: o.T1}); m != "" {
+					msg = "first line: " + m
+				} else if m := checkC06(p.y, p.py, obs{Events: o.Events[1:2], T0: o.T0, T1: o.T1}); m != "" {
+					msg = "second line: " + m
+				}
+				if msg != "" {
+					run.Violation("C06:pair:"+p.x.Form+"->"+p.y.Form+":"+firstWords(msg, 2), map[string]any{"cases": []c07case{{Form: p.x.Form, Pid: p.px, Msg: p.x.Line, Line: p.px + " " + p.x.Line + "\n"}, {Form: p.y.Form, Pid: p.py, Msg: p.y.Line, Line: p.py + " " + p.y.Line + "\n"}}},
+						fmt.Sprintf("line %q (pid %s) followed by line %q (pid %s) through the pipe: %s", p.x.Line, p.px, p.y.Line, p.py, msg))
+				}
+			}
+		}()
+	}
+	for _, x := range reps {
+		for _, y := range reps {
+			jobs <- pair{x, y, pidA, pidA}
+			jobs <- pair{x, y, pidA, pidB}
+		}
+	}
+	close(jobs)
+	wg.Wait()
+	return int(n)
 }
 
 // c06ThroughPipe runs every line of the product through pipe -> named-pipe ingester -> syslog ingester ->
